@@ -53,6 +53,10 @@ func (f *And) Call(s *slip.Scope, args slip.List, depth int) (result slip.Object
 		if result == nil {
 			break
 		}
+		switch result.(type) {
+		case *slip.ReturnResult, *GoTo:
+			return
+		}
 	}
 	return
 }
